@@ -69,7 +69,20 @@ func (g *hostGrid) marks() []int {
 	}
 	return m
 }
-func (g *hostGrid) newAccepts(m []int) []string {
+func (g *hostGrid) newAccepts(m []int, min int) []string {
+	if min > 0 {
+		deadline := time.Now().Add(3 * time.Second)
+		for {
+			n := 0
+			for i, l := range g.Ls {
+				n += l.Accepts() - m[i]
+			}
+			if n >= min || time.Now().After(deadline) {
+				break
+			}
+			time.Sleep(100 * time.Microsecond)
+		}
+	}
 	var out []string
 	for i, l := range g.Ls {
 		for _, c := range l.Conns()[m[i]:] {
@@ -118,14 +131,20 @@ func u16(s string, nul bool) []uint16 {
 }
 
 func genC03(t *rapid.T) c03Case {
-	c := c03Case{Kind: genKind(t)}
+	c := c03Case{}
 	c.Mode = rapid.SampledFrom([]string{"any", "signed", "roundrobin", "roundrobin", "unsigned", "unsigned", "", "junk"}).Draw(t, "mode")
 	n := rapid.IntRange(1, 4).Draw(t, "nentries")
 	for i := 0; i < n; i++ {
 		c.Entries = append(c.Entries, rapid.SampledFrom(c03Entries).Draw(t, "entry"))
 	}
-	c.User = rapid.SampledFrom([]string{"", "1", "2", "4", "7", "9", "1", "al ice", "bob@example.com", "{{x}}", "1:7"}).Draw(t, "user")
 	c.TokenAuth = rapid.Bool().Draw(t, "tokenAuth")
+	return genC03Req(t, c)
+}
+
+// genC03Req draws the request part for a given configuration (Mode, Entries, TokenAuth).
+func genC03Req(t *rapid.T, cfg c03Case) c03Case {
+	c := c03Case{Mode: cfg.Mode, Entries: cfg.Entries, TokenAuth: cfg.TokenAuth, Kind: genKind(t)}
+	c.User = rapid.SampledFrom([]string{"", "1", "2", "4", "7", "9", "1", "al ice", "bob@example.com", "{{x}}", "1:7"}).Draw(t, "user")
 	// base: one of the entries as the user sees it
 	base := rapid.SampledFrom(c.Entries).Draw(t, "base")
 	host, port := "127.0.0.1", "$P"
@@ -308,11 +327,11 @@ func runC03On(c c03Case, tgt func(user string) gwc.Target, o gwOpts, P int) *Vio
 	units = append(units, tsgu.TunnelAuth("pc"), tsgu.ChannelCreateRaw(1, 0, uint16(port), 3, nameBytes, cb), tsgu.Handshake(0, 0, 0, caps))
 	marks := g.marks()
 	r := sess.Run(c.Kind, tgt(c.User), units)
-	accepts := g.newAccepts(marks)
+	resps, err := sess.Decode(r.Pkts)
+	accepts := g.newAccepts(marks, channelSuccesses(resps))
 	if r.OpenStatus != 0 {
 		return viol("c03/open", "transport did not open: %d %s", r.OpenStatus, r.OpenErr)
 	}
-	resps, err := sess.Decode(r.Pkts)
 	if err != nil {
 		return viol("c03/decode", "%v", err)
 	}
@@ -405,5 +424,45 @@ func TestC03_INP(t *testing.T) {
 		return withGateway(mkGateway(o), func() *Violation {
 			return runC03On(c, func(user string) gwc.Target { return inpTarget(userHeader(o, user)...) }, o, P)
 		})
+	})
+}
+
+type c03Bin struct {
+	Cfg   c03Case   `json:"config"`
+	Batch []c03Case `json:"batch"`
+}
+
+func TestC03_BIN(t *testing.T) {
+	runProp(t, "C03_BIN", func(t *rapid.T) c03Bin {
+		full := genC03(t)
+		b := c03Bin{Cfg: c03Case{Mode: full.Mode, Entries: full.Entries, TokenAuth: full.TokenAuth}, Batch: []c03Case{full}}
+		for i, n := 0, rapid.IntRange(0, 14).Draw(t, "batch"); i < n; i++ {
+			b.Batch = append(b.Batch, genC03Req(t, b.Cfg))
+		}
+		return b
+	}, func(b c03Bin) (bool, []string) {
+		cl := []string{"mode=" + b.Cfg.Mode}
+		for _, c := range b.Batch {
+			cl = append(cl, "what="+c.What)
+		}
+		return true, cl
+	}, func(b c03Bin) *Violation {
+		P := theGrid().P
+		o := c03Opts(b.Cfg, P)
+		in, _, err := binFor(o, "x")
+		if err != nil {
+			return viol("bin/start", "%v", err)
+		}
+		for i, c := range b.Batch {
+			v := runC03On(c, func(user string) gwc.Target {
+				_, tgt, _ := binFor(o, user)
+				return tgt
+			}, o, P)
+			if v != nil {
+				v.Msg = fmt.Sprintf("sub-case %d: %s", i, v.Msg)
+				return v
+			}
+		}
+		return binHealth(in)
 	})
 }
